@@ -120,6 +120,11 @@ def _check_driven_through_execute(m, t):
 
 
 def make_fault(fault):
+    if fault.get('exc') == 'DeprecatedAliasCall':
+        # the run uses one of the library's deprecated camelCase spellings: harmless by default (a DeprecationWarning is issued),
+        # an ERROR of this run in a process that turns warnings into errors
+        core.Agent('tmp', None).hasComponent()
+        return None
     return FAULT_CLASSES[fault.get('exc', 'InjectedFault')](fault['tag'])
 
 
@@ -143,7 +148,9 @@ class _Work(core.System):
             _time.sleep(m.delay)
         _check_driven_through_execute(m, t)
         if m.fault and m.fault.get('kind') == 'step' and m.fault['ordinal'] == m.ordinal and m.fault['t'] == t:
-            raise make_fault(m.fault)
+            f_ = make_fault(m.fault)
+            if f_ is not None:
+                raise f_
         if t == m.stop:
             m.complete()
 
@@ -185,7 +192,9 @@ class VModel(core.Model):
         delays = control.get('delays') or [0]
         self.delay = delays[self.ordinal % len(delays)]
         if self.fault and self.fault.get('kind') == 'ctor' and self.fault['ordinal'] == self.ordinal:
-            raise make_fault(self.fault)
+            f_ = make_fault(self.fault)
+            if f_ is not None:
+                raise f_
         self.systems.add_system(_Work('work', self))
         for cid in control['collectors']:
             # collectors either keep their default priority (-1) or share the priority of the completing system (registered after it)
